@@ -14,6 +14,8 @@ CONSTANTS
   ParamKeys = {}
   MaxParamChanges = 0
   Seeded = TRUE
+  Networks = {"main"}
+  Heights0 = {1}
   Defects = {}
 INVARIANT MInv_P
 INVARIANT MInv_Model
